@@ -21,6 +21,20 @@ def ask(e, cmd, pred, timeout):
     return got[1] if got else None
 
 
+def exchange(e, cmd, timeout=60.0):
+    """Send `cmd` followed by `isready` and return the stdout lines printed in between, or None if
+    `readyok` did not arrive. Everything printed before `readyok` belongs to commands sent before
+    `isready`, so answers cannot be attributed to the wrong question however slow the machine is."""
+    n = e.n_out()
+    if not e.send(cmd) or not e.send("isready"):
+        return None
+    got = e.wait_line(lambda x: x == "readyok", n, timeout)
+    if got is None:
+        return None
+    with e.cv:
+        return [x for _, x in e.out_lines[n:got[0]]]
+
+
 def settle(e, timeout=20.0):
     return ask(e, "isready", lambda x: x == "readyok", timeout) is not None
 
@@ -64,9 +78,8 @@ def c13_session(binary, plan, positions):
                 v, sig, text = crash_or_hang(e, f"isready after setoption name {name} value {value}")
                 r.update({"verdict": v, "signature": f"c13.{sig}.isready", "what": text})
                 results.append(r)
-                if v == "violated":
-                    break
-                continue
+                break  # violated or inconclusive: never reuse an engine whose answer went missing (a late answer would be
+                # attributed to the next question)
             e.send(position_cmd(pos["root"], pos["moves"]))
             n = e.n_out()
             e.send(go)
@@ -75,9 +88,8 @@ def c13_session(binary, plan, positions):
                 v, sig, text = crash_or_hang(e, f"'{go}' after setoption name {name} value {value}")
                 r.update({"verdict": v, "signature": f"c13.{sig}.search", "what": text})
                 results.append(r)
-                if v == "violated":
-                    break
-                continue
+                break  # violated or inconclusive: never reuse an engine whose answer went missing (a late answer would be
+                # attributed to the next question)
             mv = got[1].split()[1]
             if mv not in pos["legal"]:
                 r.update({"verdict": "violated", "signature": "c13.illegal-bestmove",
@@ -203,37 +215,39 @@ def c17_batch(binary, games, conv_alive, conv_lock):
                 if pre == "go" and not prev_has_replies:
                     continue  # no GUI asks for a move in a finished game (and C04 excludes terminal positions)
                 if pre == "go":
-                    ask(e, "go depth 1", lambda x: x.startswith("bestmove"), 30.0)
+                    ok = ask(e, "go depth 1", lambda x: x.startswith("bestmove"), 60.0) is not None
                 elif pre == "ucinewgame":
                     e.send("ucinewgame")
-                    settle(e, 30.0)
+                    ok = settle(e, 60.0)
                     prev_has_replies = True
                 else:
-                    ask(e, "isready", lambda x: x == "readyok", 30.0)
+                    ok = settle(e, 60.0)
+                if not ok:
+                    v, sig, text = crash_or_hang(e, f"'{pre}' between two position commands of a session")
+                    r.update({"verdict": v, "signature": f"c17.{sig}", "what": text})
+                    break
+            if r["verdict"] != "held":
+                res.append(r)
+                break  # never reuse an engine whose answer went missing
             cmd = position_cmd(g["root"], g["moves"])
             e.send(cmd)
             prev_has_replies = bool(g["replies"])
-            fen_line = ask(e, "d fen", lambda x: x.startswith("FEN: "), 20.0)
-            if fen_line is None:
+            out_fen = exchange(e, "d fen")
+            fen_lines = [x for x in (out_fen or []) if x.startswith("FEN: ")]
+            if out_fen is None or len(fen_lines) != 1:
                 v, sig, text = crash_or_hang(e, f"'d fen' after a position command with {len(g['moves'].split())} moves")
+                if out_fen is not None and v == "inconclusive":
+                    v, sig, text = "violated", "no-fen-line", f"'d fen' printed {len(fen_lines)} FEN lines after '{cmd[:120]}'"
                 r.update({"verdict": v, "signature": f"c17.{sig}", "what": text})
                 res.append(r)
-                if v == "violated":
-                    break
-                continue
-            got_fen = fen_line[5:].strip()
-            n = e.n_out()
-            e.send("d perftdiv 1")
-            total = e.wait_line(lambda x: x.startswith("total: "), n, 20.0)
-            if total is None:
+                break
+            got_fen = fen_lines[0][5:].strip()
+            lines = exchange(e, "d perftdiv 1")
+            if lines is None or not any(x.startswith("total: ") for x in lines):
                 v, sig, text = crash_or_hang(e, "'d perftdiv 1' after a position command")
                 r.update({"verdict": v, "signature": f"c17.{sig}", "what": text})
                 res.append(r)
-                if v == "violated":
-                    break
-                continue
-            with e.cv:
-                lines = [x for _, x in e.out_lines[n:total[0]]]
+                break
             replies = sorted(x.split(":")[0].strip() for x in lines if re.match(r"^[a-h][1-8][a-h][1-8][nbrq]?: \d+$", x))
             bad_format = [x for x in lines if ":" in x and not re.match(r"^[a-h][1-8][a-h][1-8][nbrq]?: \d+$", x) and not x.startswith("total")]
             # position: placement/side/rights/clocks must match; the target field under a single convention
@@ -271,7 +285,7 @@ def c17_batch(binary, games, conv_alive, conv_lock):
                 elif bm.split()[1] not in g["replies"]:
                     r.update({"verdict": "violated", "signature": "c17.bestmove", "what": f"'{bm}' is not among the legal replies at '{got_fen}'"})
             res.append(r)
-            if r["verdict"] == "violated":
+            if r["verdict"] != "held":
                 break
         p = e.saw_panic()
         if p and all(r["verdict"] == "held" for r in res):
@@ -524,13 +538,12 @@ def c04_session(binary, plan):
                 v, sig, text = crash_or_hang(e, f"'{go}' in {pos['fen']}")
                 r.update({"verdict": v, "signature": f"c04.binary.{sig}", "what": text})
                 res.append(r)
-                if v == "violated":
-                    break
-                continue
+                break  # violated or inconclusive: never reuse an engine whose answer went missing (a late answer would be
+                # attributed to the next question)
             if got[1].split()[1] not in pos["legal"]:
                 r.update({"verdict": "violated", "signature": "c04.binary.illegal-bestmove", "what": f"'{got[1]}' is not legal in {pos['fen']} ({go})"})
             res.append(r)
-            if r["verdict"] == "violated":
+            if r["verdict"] != "held":
                 break
         p = e.saw_panic()
         if p and all(r["verdict"] == "held" for r in res):
@@ -804,14 +817,19 @@ def c12_stage(out, tier, seed):
         b.send(f"setoption name Hash value {hash_mb}")
         settle(b, 60)
         hist = []
+        lost = False
         for _ in range(r.randint(1, 6)):
             p = r.choice(positions)
             d = r.choice([2, 4, 6, 7])
             hist.append((p["fen"], d))
-            transcript(b, p, d)
-        b.send("ucinewgame")
-        settle(b, 60)
-        tb = transcript(b, target, depth)
+            if transcript(b, p, d) is None:
+                lost = True  # an answer went missing: a late one could be attributed to the next search
+                break
+        tb = None
+        if not lost:
+            b.send("ucinewgame")
+            if settle(b, 120):
+                tb = transcript(b, target, depth)
         crashed = b.saw_panic() or a.saw_panic()
         b.close()
         with lock:
